@@ -161,5 +161,31 @@ def replay(w):
     return dict(reproduced=bool(out['witnesses']), detail=out['witnesses'][:1])
 
 
+def bounded_hoisting():
+    """BOUNDED stand-in for what no contract covers here (the frontend's declaration-hoisting pass feeding the scope tables): one Python program with functions defined
+    in blocks, lambdas, shadowing; real parser + adjust_variable_decls + flatten + UnitScopeHierarchyAnalysis + Resolver; every identifier occurrence against Python scoping"""
+    import contextlib
+    import io
+    import c05_hoist
+    buf = io.StringIO()
+    try:
+        with contextlib.redirect_stdout(buf):
+            code = c05_hoist.main()
+    except SystemExit as e:
+        code = e.code
+    except Exception as e:      # noqa
+        return [dict(function='adjust_variable_decls', input='c05_hoist.py', observed=[f'exception {e!r}'], clauses=['names bind to the declaration lexical scoping selects'])], 1
+    lines = [l for l in buf.getvalue().splitlines() if l.strip()]
+    if code:
+        return [dict(function='adjust_variable_decls', input='the program of c05_hoist.py (functions defined inside if/for/with/try bodies, lambdas, shadowing)',
+                     observed=lines[:4], clauses=['names bind to the declaration lexical scoping selects'])], 14
+    return [], 14
+
+
 if __name__ == '__main__':
+    if '--bounded' in sys.argv:
+        wit, cases = bounded_hoisting()
+        common.emit(dict(witnesses=wit, cases=cases, bound='one Python program, 14 identifier occurrences (functions defined inside blocks, lambdas, shadowing) through the real parser, '
+                                                           'declaration hoisting, flattening, scope hierarchy and resolver'))
+        sys.exit(1 if wit else 0)
     common.main(search, replay)
